@@ -41,7 +41,7 @@ def _dict(idx: Index, mod: str, name: str) -> ast.Dict:
 def check_structure(idx: Index, rep: Report) -> None:
     # ---- every block of the function is converted (blocks and phis are pre-created for all of them)
     r = rep.rule("C23.R5", "every block that was pre-created in the LLVM function gets its operations converted (an empty LLVM block has no terminator and the module is rejected)", floor=1)
-    f = idx.func(CV, "_convert_func")
+    f = _convert_func_info(idx)
     cfg = CFG(f.node)
     conv = [c for c in calls_in(f.node) if call_name(c) == "convert_op"]
     if not conv:
@@ -136,6 +136,30 @@ def _cmp_paths(f):
                 for ft_, fs_ in variants:
                     out.append((ft_, args, fs_))
     return opn, bn, vm, out
+
+
+
+def _convert_func_info(idx: Index):
+    """_convert_func with its block table renamed to `block_map` (the local that receives the append_basic_block results,
+    directly or through a local), so that the rules do not depend on what that local is called."""
+    from ..astutil import rename_locals
+    from ..srcindex import FuncInfo
+
+    f = idx.func(CV, "_convert_func")
+    cand = set()
+    fcfg_ = CFG(f.node)
+    for st in walk_local(f.node):
+        if isinstance(st, ast.Assign) and isinstance(st.targets[0], ast.Subscript) and isinstance(st.targets[0].value, ast.Name) and "append_basic_block" in resolved_text(fcfg_, st.value, fcfg_.node_of(st)):
+            cand.add(st.targets[0].value.id)
+        if isinstance(st, (ast.Assign, ast.AnnAssign)) and isinstance(st.value, ast.DictComp) and "append_basic_block" in unparse(st.value.value):
+            tg = st.targets[0] if isinstance(st, ast.Assign) else st.target
+            if isinstance(tg, ast.Name):
+                cand.add(tg.id)
+    if len(cand) == 1 and "block_map" not in cand:
+        taken = {n.id for n in ast.walk(f.node) if isinstance(n, ast.Name)}
+        if "block_map" not in taken:
+            return FuncInfo(f.module, f.qualname, f.raw_node, f.cls, rename_locals(f.node, {next(iter(cand)): "block_map"}))
+    return f
 
 
 def check(idx: Index, rep: Report, tier: str) -> str:
@@ -315,7 +339,7 @@ def check(idx: Index, rep: Report, tier: str) -> str:
             r.ok(f.fq, f"{f.loc} incoming (value, current block) for every successor argument, then the branch")
         else:
             r.fail(f.fq, Finding("C23.R3", f.fq, "phi-incoming", f"no loop `for arg, val in zip({missing[0][0]}, {missing[0][1]})` adding `val_map[val]` with the current block to `val_map[arg]` runs before the branch is emitted: a successor argument does not get its phi incoming (LLVM rejects the phi or the value is wrong)", f.loc))
-    f = idx.func(CV, "_convert_func")
+    f = _convert_func_info(idx)
     fcfg = CFG(f.node)
     conv = [c for c in calls_in(f.node) if unparse(c.func) == "convert_op" and len(c.args) >= 2 and isinstance(c.args[1], ast.Name)]
     if not conv:
@@ -376,7 +400,7 @@ def check(idx: Index, rep: Report, tier: str) -> str:
     # the driver hands every operation the builder of the block it is in
     from ..dataflow import reaching_defs
 
-    drv = idx.func(CV, "_convert_func")
+    drv = _convert_func_info(idx)
     dcfg = CFG(drv.node)
     ccalls = [c for c in calls_in(drv.node) if unparse(c.func) == "convert_op" and len(c.args) >= 2]
     if not ccalls:
